@@ -41,7 +41,7 @@ STATES = [CM.S(limit=l, agg=a, filtered=f, ordered=o, k1=k, grouped_now=g, c1_hi
           for h in ((False, True) if (k == "win" and not f and not o) else (False,))]
 
 
-def build_pre(s: CM.S, backend_cls):
+def build_pre(s: CM.S, backend_cls, hid_first=False):
     """pre-state table realising the abstract state s: columns c0 (plain, group key), c1 (kind k1), [c2 hidden]"""
     if s.agg == "ungrouped":
         cols, kinds = ["vis"], [s.k1]
@@ -54,11 +54,16 @@ def build_pre(s: CM.S, backend_cls):
     else:
         cols, kinds = ["grp" if s.grouped_now else "vis", "hid" if s.c1_hidden else "vis", "hid"], ["ew", s.k1, "ew"]
         c0, c1 = 0, 1
+        if hid_first:
+            # the hidden column was created BEFORE the visible ones (e.g. it was overwritten by a mutate): it comes first in the backend state
+            cols, kinds = [cols[2], cols[0], cols[1]], [kinds[2], kinds[0], kinds[1]]
+            c0, c1 = 1, 2
     ft = {"ew": Ftype.ELEMENT_WISE, "win": Ftype.WINDOW, "agg": Ftype.AGGREGATE}
     pre = TS.Pre(TS.Skeleton(cols), "t", backend_cls=backend_cls, ftypes=[ft[k] for k in kinds], limit=5 if s.limit else TS.no_limit(), is_filtered=s.filtered)
     if s.agg == "grouped":
         pre.group_by = (pre.uuids[0],)
     pre.c0, pre.c1 = c0, c1
+    pre.hid = (0 if hid_first else 2) if s.agg == "none" else None
     return pre
 
 
@@ -126,6 +131,11 @@ def verb_cases(pre, s: CM.S):
     else:
         out.append(("select(c0)", "select", {}, True, lambda P, T: T[0] >> pdt.select(K(c0))))
     out.append(("ungroup", "ungroup", {}, True, lambda P, T: T[0] >> pdt.ungroup()))
+    if s.agg == "none" and not s.c1_hidden:
+        # verbs over the HIDDEN column c2 (referable through an earlier table object; its name may equal a visible name)
+        hid = pre.hid
+        out.append(("filter(hid>0)", "filter", dict(refs_k1=False), True, lambda P, T: T[0] >> pdt.filter(K(hid) > 0)))
+        out.append(("mutate(k=hid+c0)", "mutate", dict(fn="ew", refs_k1=False), True, lambda P, T: T[0] >> pdt.mutate(k=K(hid) + K(c0))))
     if not s.grouped_now and not s.c1_hidden:
         # the table in state s as the left / right operand of a join with a plain second table (P[1])
         for how in ("inner", "left", "full"):
@@ -323,13 +333,13 @@ def replay_s6(model):
 # ---- S4 ------------------------------------------------------------------------------------------------
 
 
-def make_s4(s: CM.S, label, verb, fkw, fn):
+def make_s4(s: CM.S, label, verb, fkw, fn, keep=False):
     def run(carve):
         plmodel.reset_state()
-        pre = build_pre(s, H.sqlite_backend.SqliteImpl)
+        pre = build_pre(s, H.sqlite_backend.SqliteImpl, hid_first=keep and s.agg == "none")
 
         def fn2(P, T):
-            aliased = T[0] >> pdt.alias("sub")
+            aliased = T[0] >> (pdt.alias("sub", keep_col_refs=True) if keep else pdt.alias("sub"))
             return fn(P, [aliased] + list(T[1:]))
 
         kw = {"t": sql_kw(pre, s)}
@@ -573,10 +583,24 @@ def obligations(tier):
             if not ok and (tier == "thorough" or (not s.filtered and not s.ordered)):
                 obs.append(Obligation(f"C08/S4/{tag}/{label}", "S4+S7", f"alias() >> {label} in state {s}", make_s4(s, label, verb, fkw, fn), functions=fns, bounded="same state enumeration", replayer=make_replayer(s, label, fn, with_alias=True),
                                       carveouts={"whole": ""}))
+
     for i in range(6):
         obs.append(Obligation(f"C08/S4b/prefix{i}", "S4", "alias() several verbs below the verb that needs a subquery: accepted pipelines equal Polars (native)", make_s4b(i), functions=fns,
                               bounded="one state-producing prefix >> alias >> V1 >> V2 for 15 x 15 verbs on one input table; native execution on Polars and SQLite"))
+    from . import c06
+
+    obs.append(Obligation("C08/S4c/outer_join_matrix", "S4", "joins whose operand needs a subquery (computed / constant columns on the null-extended side, also below alias() and below a nested join): refused, or accepted with the expected rows (native, Python oracle)",
+                          c06.n5_run, functions=fns, bounded="the C06/N5 join matrix: 15 predicate shapes x 3 join kinds x 11 operand variants x 2 backends"))
     obs.append(Obligation("C08/J6/base", "J6", "base case: empty clause state of a source table", j6_base_run, functions=[fi(TS.Cache.from_ast), fi(H.sql_backend.SqlImpl.compile_ast)], bounded="one source table per backend (the constructor takes no other input that influences the clause state)"))
+    for s in STATES:
+        if s.c1_hidden:
+            continue
+        pre = build_pre(s, H.sqlite_backend.SqliteImpl, hid_first=s.agg == "none")
+        tag = f"{'L' if s.limit else '-'}{s.agg[0]}{'F' if s.filtered else '-'}{'O' if s.ordered else '-'}{s.k1}{'G' if s.grouped_now else '-'}"
+        for label, verb, fkw, frag, fn in verb_cases(pre, s):
+            ok, _ = CM.fits(verb, s, **fkw)
+            if not ok and verb != "join" and (tier == "thorough" or not s.ordered):
+                obs.append(Obligation(f"C08/S4k/{tag}/{label}", "S4+S7", f"alias(keep_col_refs=True) >> {label} in state {s} (hidden column created first)", make_s4(s, label, verb, fkw, fn, keep=True), functions=fns, bounded="same state enumeration", carveouts={"whole": ""}))
     obs.append(Obligation("C08/S6/sql", "S6", "LIMIT/OFFSET composition of consecutive slice_head (symbolic n, offsets)", make_s6("sql"), functions=[fi(H.sql_backend.SqlImpl.compile_ast)], carveouts={"offset_le_limit": "second offset within the first slice"}, replayer=replay_s6))
     obs.append(Obligation("C08/S6/polars", "S6", "Polars applies slice(offset, n) to the current frame", make_s6("polars"), functions=[fi(H.polars_backend.compile_ast)]))
     return obs
